@@ -421,3 +421,20 @@ for pid in ('C04', 'C16'):
     for tier in ('quick', 'thorough'):
         if tier in PROPS[pid]['mir']:
             PROPS[pid]['mir'][tier].append(mrun(['box.map', 'box.fold'], nmax=3 if tier == 'quick' else 6))
+
+# by-value conversions of C02 (native arrays, tuples) with drop-tracked elements: "keeps every element at its position" includes not
+# destroying it on the way (a guard whose position is never advanced drops what was just moved into the tuple)
+PROPS['C02']['kani']['quick'][0]['filters'] += ['c03::q::seq::nat']
+PROPS['C02']['kani']['thorough'][0]['filters'] += ['c03::q::seq::nat', 'c03::t::seq::nat']
+PROPS['C02']['outside'] = [o for o in PROPS['C02']['outside'] if 'drop-tracked' not in o]
+
+# C01: const_transmute's size check "backs every by-value reinterpretation" (anchor of C01), and the ConstDefault read-back for long arrays
+PROPS['C01']['mir']['quick'].append(mrun(['const_transmute'], nmax=3))
+for tier in ('quick', 'thorough'):
+    r = PROPS['C01']['kani'][tier][0]
+    r['filters'] += ['c19_big::']
+    r['flags'] = list(r['flags']) + ['--features', 'c19']
+PROPS['C01']['bounds'] += ' M also: const_transmute reaches its union read iff the two sizes are equal (all sizes). Const items: 2^18..2^20-element constant defaults read back through the slice view.'
+# C14: the chunked strategy beyond the quick bound
+PROPS['C14']['mir']['thorough'] = [mrun(['hex.small', 'hex.medium', 'hex.large', 'hex.xlarge'], timeout=3000)]
+PROPS['C14']['bounds'] += ' Thorough: N up to 8300 (eight full chunks and a partial one).'
